@@ -13,6 +13,8 @@ SEEDED = {"KMeansL1L2-L1": "norm L1 derives all seeds from random_state", "KMean
 
 def cases(tier, seed):
     for n in sorted(EST.configs()):
+        if n in EST.FIXED_DIM:
+            continue            # the refit below changes the number of features
         yield dict(name=n, op="refit")
         yield dict(name=n, op="same-global-seed")
         if n in SEEDED:
